@@ -88,6 +88,19 @@ class HandlerHooks(Hooks):
                     exc = s.alloc(eng.program.cls("exceptions.BackgroundThreadError"), {"args": ("bg",), "source_exception": eng.new_symexc(s, "bgsrc")})
                     out.append(("raise", exc, s))
             return out
+        if n == "ExecutionState.raise_if_orphaned":
+            # contract (C10.state.raise_if_orphaned): raises OrphanedChildException iff the id is marked, no other effect
+            b = fresh("bool", "is_orphaned")
+            st.emit("call", name="raise_if_orphaned", args=tuple(args), kwargs=dict(kwargs), result=None, scripted_bool=b.t)
+            out = []
+            for orphaned, s in eng.branch(st, b.t):
+                if orphaned:
+                    exc = s.alloc(eng.program.cls("exceptions.OrphanedChildException"), {"args": ("orphan",), "operation_id": args[0] if args else kwargs.get("operation_id")})
+                    s.emit("orphan_check_raised", exc=exc)
+                    out.append(("raise", exc, s))
+                else:
+                    out.append(("val", None, s))
+            return out
         if n in ("ExecutionState.is_replaying",):
             b = fresh("bool", "is_replaying")
             st.emit("call", name="is_replaying", args=(), kwargs={}, result=b, scripted_bool=b.t)
